@@ -577,6 +577,69 @@ def check_process_case(case, counters, sets):
     return viols
 
 
+def check_http_keepalive_case(case, counters, sets):
+    """from_http_server on a real loop and a real socket: a client keeps its connection open (HTTP/1.1 keep-alive), POSTs
+    `before` bodies, the source is stopped, and the client POSTs `after` more bodies on the connection it already has.
+    stop() only makes the server take no new connections; nothing may be emitted after it all the same (the request being
+    handled when stop() is called -- none here: every answer has been read -- could finish).  The verdict is on the order
+    of events, not on wall-clock time."""
+    import time
+    from streamz import Stream
+    got, viols = [], []
+
+    async def main():
+        src = Stream.from_http_server(0, asynchronous=True)
+        src.sink(lambda b: got.append((bool(src.stopped), b)))
+        src.start()
+        for _ in range(200):
+            if getattr(src, 'server', None) is not None and getattr(src.server, '_sockets', None):
+                break
+            await asyncio.sleep(0.01)
+        else:
+            return None
+        port = list(src.server._sockets.values())[0].getsockname()[1]
+        reader, writer = await asyncio.open_connection('127.0.0.1', port)
+
+        async def post(body):
+            writer.write(b'POST / HTTP/1.1\r\nHost: localhost\r\nContent-Length: %d\r\n\r\n%s' % (len(body), body))
+            await writer.drain()
+            try:
+                head = await asyncio.wait_for(reader.readuntil(b'\r\n\r\n'), 5)
+            except (asyncio.IncompleteReadError, asyncio.TimeoutError, ConnectionError):
+                return None             # the server closed the connection: fine
+            status = int(head.split()[1])
+            n = [int(ln.split(b':')[1]) for ln in head.split(b'\r\n') if ln.lower().startswith(b'content-length')]
+            if n and n[0]:
+                await reader.readexactly(n[0])
+            return status
+        answers = []
+        for i in range(case['before']):
+            answers.append(await post(b'before-%d' % i))
+        src.stop()
+        for i in range(case['after']):
+            answers.append(await post(b'after-%d' % i))
+            if answers[-1] is None:
+                break
+        writer.close()
+        await asyncio.sleep(0.05)
+        return answers
+    try:
+        answers = asyncio.run(asyncio.wait_for(main(), 30))
+    except Exception:       # noqa: BLE001
+        return None
+    if answers is None or answers[:case['before']] != [200] * case['before']:
+        return None
+    counters['server_states_checked'] = counters.get('server_states_checked', 0) + 1
+    counters['keep_alive_requests_after_stop'] = counters.get('keep_alive_requests_after_stop', 0) + case['after']
+    late = [b for stopped, b in got if stopped]
+    if late:
+        viols.append({'key': 'C18:emitted-after-stop@from_http_server-open-connection',
+                      'what': 'a client holding a keep-alive connection POSTed %d bodies after stop() had returned: %s were emitted '
+                              '(answers %s)' % (case['after'], late[:5], answers), 'case': case})
+    sets.setdefault('source_kinds', set()).add('from_http_server[socket]')
+    return viols
+
+
 def check_pdf_case(case, counters, sets):
     """PeriodicDataFrame / Random (streamz.dataframe): a source that polls a callback from its own coroutine, with start() and
     stop() of its own.  Same oracle, in virtual time: the harness only makes the inner Source asynchronous (so that it lives
@@ -688,6 +751,15 @@ def run_shard(seed, tier, shard, nshards):
         out['violations'].extend(check_kafka_case(case, out['counters'], out['sets']))
         out['evaluations'] += 1
         out['keys'].append(progs.prog_key(case, None))
+    for k in range(6 if tier == 'thorough' else 2):
+        case = {'http_keepalive': True, 'before': rng.choice([0, 1, 3]), 'after': rng.choice([1, 2, 4])}
+        v = check_http_keepalive_case(case, out['counters'], out['sets'])
+        out['evaluations'] += 1
+        if v is None:
+            out['inconclusive'].append('from_http_server socket case %d: server did not come up / did not answer' % k)
+        else:
+            out['violations'].extend(v)
+            out['keys'].append(progs.prog_key(case, None))
     for k in range(n_cases(tier) // 10):
         poll = rng.choice([0.5, 1.0])
         t, ops = 0.0, []
@@ -731,5 +803,7 @@ def replay(case):
         return check_server_case(case, {}, {})
     if case.get('pdf'):
         return check_pdf_case(case, {}, {}) or []
+    if case.get('http_keepalive'):
+        return check_http_keepalive_case(case, {}, {}) or []
     _, viols = check_case(case, {}, {})
     return viols or []
